@@ -41,7 +41,7 @@ func runGenesisInput(res *Result) {
 		res.Tables = t.tables()
 		return
 	}
-	roundTrip(res, a, freshCtx(a), false)
+	roundTrip(res, a, freshCtx(a), false, nil, nil)
 	// keep the rows of the input as well
 	tb := t.tables()
 	merge(res.Tables, tb)
